@@ -2,8 +2,10 @@
 
 prove : DaeVerif.C11.Props (spec-level theorems about AddSet normalisation / suffix-trie query,
         set independence, bit list, rank/select, LOUDS navigation)
-tie   : three overlay harnesses call the real code (common/bitlist, pkg/trie white-box,
-        domain_matcher.AhocorasickSlimtrie) and the Lean driver c11drv evaluates the same lines.
+tie   : four streams from three overlay harness files call the real code (common/bitlist, pkg/trie,
+        domain_matcher.AhocorasickSlimtrie incl. the Aho-Corasick library directly, and a -race replay)
+        and the Lean driver c11drv evaluates the same lines.  Only answers are compared; layout dumps,
+        error classes, API-misuse ops and inputs outside the property's domain are diagnostics.
 """
 import json, os, resource, subprocess, time
 from verifkit import read_lines, LEAN, REPO, CACHE, go_env, sh
@@ -42,20 +44,64 @@ REQUIRED = [
 # generator scale the evidence may claim (the check refuses to finish below these)
 # (>= 65536 trie nodes: from there on the rank cache uses units wider than 16 bits — the multi-word
 #  CompactBitList.Get path is then reached through the matcher, which is what catches seed C11-e in quick)
+# every floor is met by a DETERMINISTIC case of the generator (forced sizes), never by luck of the seed
 MIN_SCALE = {"quick": {"trie.keys.max": 20000, "trie.nodes.max": 65536, "dm.trie.nodes.max": 65536,
-                       "dm.set.size.max": 10000, "dm.name.len.max": 1000, "ac.keywords.max": 1000, "cc.sessions": 20},
+                       "dm.set.size.max": 10000, "dm.name.len.max": 4000, "ac.keywords.max": 1500, "cc.sessions": 20,
+                       "dm.sets.max": 1024, "cc.sets.max": 1024, "cc.sessions.first_queries_concurrent": 10},
              "thorough": {"trie.keys.max": 200000, "trie.nodes.max": 65536, "dm.trie.nodes.max": 65536,
-                          "dm.set.size.max": 100000, "dm.name.len.max": 1000, "ac.keywords.max": 8000, "cc.sessions": 100}}
+                          "dm.set.size.max": 100000, "dm.name.len.max": 4000, "ac.keywords.max": 10000, "cc.sessions": 100,
+                          "dm.sets.max": 1024, "cc.sets.max": 1024, "cc.sessions.first_queries_concurrent": 50}}
 PLAIN = set(b"abcdefghijklmnopqrstuvwxyzABCDEFGHIJKLMNOPQRSTUVWXYZ0123456789-_.")
 
 
 def canon(line):
     """What the property speaks about: answers, not layouts, not error wording.
-    ` | …` = diagnostics (white-box layout dumps); `err:<class>` = some build error."""
+    ` | …` = diagnostics (white-box layout dumps); `err:<class>` = some build error; a constructor that
+    panics and one that returns an error both REFUSE the input (NewTrie on an empty key list)."""
     line = line.split(" | ")[0]
-    if line.startswith("err:") or line.startswith("builderr:"):
+    if line.startswith("err:") or line.startswith("builderr:") or line in ("err", "panic"):
         return "err"
     return line
+
+
+STRICT_BYTES = {"d": set(b"abcdefghijklmnopqrstuvwxyzABCDEFGHIJKLMNOPQRSTUVWXYZ0123456789-_.^"),
+                "ac": set(b"abcdefghijklmnopqrstuvwxyzABCDEFGHIJKLMNOPQRSTUVWXYZ0123456789-_.^$"),
+                "c": set(b"01")}
+
+
+def alpha_same(op, im, mo):
+    """valid-byte tables: strict on the bytes a pattern / name of the property can contain (plus the
+    marker bytes), other bytes (e.g. adding '*' to the trie alphabet: stored-but-dead) are a note"""
+    try:
+        which = op.split()[1]
+        vi = set(bytes.fromhex(im.split(" | ")[0].split("=")[1]))
+        vm = set(bytes.fromhex(mo.split(" | ")[0].split("=")[1]))
+        st = STRICT_BYTES.get(which, set(range(256)))
+        return (vi & st) == (vm & st)
+    except Exception:
+        return False
+
+
+def misuse_lines(opl):
+    """API misuse dae never performs (a query before Build, a second Build, AddSet after Build, anything
+    after a failed Build is retried): the property is silent; differences there are diagnostics."""
+    res = set()
+    builds, mis = 0, False
+    for i, o in enumerate(opl):
+        w = o.split(" ", 1)[0]
+        if w == "new":
+            builds, mis = 0, False
+        elif w == "build":
+            if builds >= 1:
+                mis = True
+            builds += 1
+        elif w == "add" and builds >= 1:
+            mis = True
+        elif w == "q" and builds == 0:
+            res.add(i)
+        if mis:
+            res.add(i)
+    return res
 
 
 def plain_query(op):
@@ -146,7 +192,8 @@ def run(ctx):
                        {"stream": label, "race_report": blk, "frames": where,
                         "replay": "VERIF_SEED=%d ./check C11 %s" % (ctx.seed, ctx.tier)})
             rc = 0 if os.path.exists(ops) else rc
-        oom = any(x in out for x in ("out of memory", "cannot allocate memory", "signal: killed"))
+        # infrastructure, never a violation: memory exhaustion, a killed process, Go's own -test.timeout
+        oom = any(x in out for x in ("out of memory", "cannot allocate memory", "signal: killed", "test timed out"))
         if rc != 0 and not oom and ("panic:" in out or "fatal error:" in out) and os.path.exists(ops):
             # the real code panicked where the harness cannot recover (a goroutine started by Build):
             # that is a failure of the property, not of the infrastructure.  The session that was being
@@ -165,20 +212,32 @@ def run(ctx):
             ctx.say("HARNESS-FAILED", label, out[-3000:])
             return 2
         if not run_driver(ctx, ops, model):
-            ctx.proof_failures.append(f"model driver c11drv failed on stream {label}")
+            # a killed / crashed driver (OOM, stack limit) is an infrastructure error, not a broken proof
+            ctx.say(f"HARNESS-FAILED model driver c11drv did not finish on stream {label} (killed / out of memory / stack limit?)")
+            return 2
         mism_all = ctx.diff_streams(ops, impl, model, label, canon=canon)
         opl, iml, mol = read_lines(ops), read_lines(impl), read_lines(model)
         total += len(opl)
         mism = []
+        misuse = misuse_lines(opl) if label == "c11dm" else set()
         for m in mism_all:
             # names outside the property's alphabet: the property is silent, a difference is a note
             if label == "c11dm" and m[0] > 0 and not plain_query(m[1]) and " idx=" not in m[3] and " spec=" not in m[3]:
                 diagnostics["outside_alphabet_differs"] += 1
                 continue
+            if m[0] > 0 and (m[0] - 1) in misuse and " idx=" not in m[3] and " spec=" not in m[3]:
+                diagnostics["api_misuse_differs"] = diagnostics.get("api_misuse_differs", 0) + 1
+                continue
+            if m[0] > 0 and m[1].startswith("blx "):
+                diagnostics["bitlist_outside_domain_differs"] = diagnostics.get("bitlist_outside_domain_differs", 0) + 1
+                continue
+            if m[0] > 0 and m[1].startswith("alpha ") and alpha_same(m[1], m[2], m[3]):
+                diagnostics["alphabet_dead_byte_differs"] = diagnostics.get("alphabet_dead_byte_differs", 0) + 1
+                continue
             mism.append(m)
         for i, (o, im, mo) in enumerate(zip(opl, iml, mol)):
             if canon(im) == canon(mo) and im != mo:
-                if im.startswith("err"):
+                if im.startswith("err") or im == "panic" or mo == "panic":
                     diagnostics["error_class_differs"] += 1
                 elif o.startswith("alpha "):
                     # Size() != number of valid bytes: the real table was built from a byte list with a
